@@ -8,6 +8,18 @@ pub const LCD_WIDTH: usize = 160;
 pub const LCD_HEIGHT: usize = 144;
 const LCD_SIZE: usize = LCD_WIDTH * LCD_HEIGHT;
 
+/// Verification hook (cfg(gb_dynarec_verif) only): an LCD without frame buffers
+#[cfg(gb_dynarec_verif)]
+impl LCD {
+  pub fn verif_empty() -> Self {
+    Self {
+      visible_buffer: Vec::new().into_boxed_slice(),
+      writing_buffer: Vec::new().into_boxed_slice(),
+      enabled: true,
+    }
+  }
+}
+
 impl LCD {
   pub fn new() -> Self {
     let mut visible: Vec<u8> = Vec::with_capacity(LCD_SIZE);
